@@ -24,7 +24,7 @@ func init() {
 		Run: ruleDecEffects,
 	})
 	register(&Rule{
-		Name: "hpack-table-accounting", Props: []string{"C03", "C04"}, Engine: "AST", Floor: 7,
+		Name: "hpack-table-accounting", Props: []string{"C03", "C04"}, Engine: "AST", Floor: 8,
 		Doc: "the dynamic table's size accounting is RFC 7541 s4.1-s4.4: an entry counts name+value+32, the table size is the sum over all entries, eviction walks from the oldest entry subtracting each evicted entry's size while entries remain and the size exceeds the maximum, exactly the walked entries are released and dropped, a full match needs name and value equal, a name-only match keeps the first static entry, SetMaxTableSize stores the new limit for both the table and the size-update check, schedules the announcement and evicts",
 		Run: ruleTableAccounting,
 	})
@@ -800,6 +800,18 @@ func ruleTableAccounting(p *Prog, r *Out) {
 		r.check(rel && drop, "evicted entries are released and dropped, no others", p.pos(fd.Pos()), "release dynamic[0..n); dynamic = dynamic[n:]", "shrink no longer releases and drops exactly the n entries it walked over")
 	} else {
 		r.undecided("(*HPACK).shrink", "?", "no longer resolves")
+	}
+	if fd := p.decl("(*HPACK).addDynamic"); fd != nil {
+		r.fn("(*HPACK).addDynamic")
+		straight := true
+		ast.Inspect(fd.Body, func(n ast.Node) bool {
+			switch n.(type) {
+			case *ast.IfStmt, *ast.ReturnStmt, *ast.SwitchStmt, *ast.ForStmt, *ast.RangeStmt:
+				straight = false
+			}
+			return true
+		})
+		r.check(straight, "every insertion goes through insert-then-evict", p.pos(fd.Pos()), "addDynamic is straight-line: copy, append, shrink", "addDynamic no longer inserts unconditionally and lets the eviction decide: RFC 7541 s4.4 makes the attempt to add an entry larger than the table empty the table, so skipping the insert leaves entries in this table that the peer has dropped (an index then resolves to a stale field, or the encoder refers to an entry the decoder no longer has)")
 	}
 	if fd := p.decl("(*HPACK).search"); fd != nil {
 		r.fn("(*HPACK).search")
